@@ -2,8 +2,10 @@
 
 Proof: coq/C04/Props.v over the model coq/C04/Model.v (Encoder.encode/decode with
 the tables regenerated from /repo, Text.escape and its flag, the serialisation
-of text and attribute values, PrefixNormalizer.refitValue, the SAX Handler) and
-the XML 1.0 decoding rules written as an executable specification.
+of text and attribute values, Element.plain/str, PrefixNormalizer.refitValue,
+the SAX Handler) and the XML 1.0 rules written as an executable specification
+(decoding of character data and attribute values in Model.v, cutting a
+serialised element into events in Tokens.v).
 
 Tie to the code (every run):
   enc    Encoder.encode / decode on generated strings                   -> enc_agrees
@@ -11,14 +13,19 @@ Tie to the code (every run):
   ser    one value as element text and as attribute value of a standalone
          Element, pretty and plain serialiser; the raw slice found by an
          independent tokenizer is decoded by the Coq specification        -> req_*
+  esc    Text objects carrying the escaped flag through both serialisers  -> esc_agrees
   refit  attribute values through PrefixNormalizer on standalone trees    -> req_*
   req    values as operation arguments (element / attribute position) ->
          RequestContext.envelope (4 client configurations) -> slices      -> req_*
   rep    strings written by the independent writer under random mixes of
-         entity / decimal / hex references, CDATA and literal text ->
-         reply processed by suds                                          -> rep_*
+         entity / decimal / hex references, CDATA and literal text, in
+         UTF-8 / UTF-16 / ISO-8859-1 / US-ASCII, compact or indented ->
+         reply processed by suds (process_reply and __inject)             -> rep_*
   tree   random standalone trees -> Document.plain()/str() -> suds' parser
-         and expat                                                        -> tree_*
+         and expat; the Coq XML grammar on the same characters            -> tree_*
+
+Findings re-observed on the unchanged tree (KNOWN_FINDINGS.json): K_ENTITY, K_QNAME.
+K_FIXED_WS names the defect repaired in /repo f9fe39d: reported as a VIOLATION if it returns.
 """
 import itertools
 import re
@@ -395,15 +402,8 @@ def write_pieces(rng, s, attr=False, q='"', maxlit=0x10ffff):
     if rng.random() < 0.1:
         pieces.insert(rng.randrange(len(pieces) + 1), ("lit", ""))
     if not attr and rng.random() < 0.1:
-        # an empty CDATA section contributes nothing; avoid completing ]]> after it (k resets anyway)
+        # an empty CDATA section contributes nothing (and only ever breaks a run of literal `]`)
         pieces.insert(rng.randrange(len(pieces) + 1), ("cdata", ""))
-        pieces = fix_literal_runs(pieces)
-    return pieces
-
-
-def fix_literal_runs(pieces):
-    """After inserting pieces: nothing to fix for ']]>' because a non-literal piece
-    between literal pieces only breaks a run; kept as a hook."""
     return pieces
 
 
@@ -594,8 +594,10 @@ def run_grouped(ck, name, case_type, cases, preds, suspects=(), group=25, shard_
     otherwise); members of a failing pack and the `suspects` (cases whose
     outcome is already known to differ) are evaluated one by one.  Returns
     pred -> sorted failing case indexes, exactly as run_cases would."""
+    import resource
     import time as _time
     t0 = _time.time()
+    ru0 = resource.getrusage(resource.RUSAGE_CHILDREN)
     suspects = set(suspects)
     packed = [i for i in range(len(cases)) if i not in suspects]
     groups = [packed[k:k + group] for k in range(0, len(packed), group)]
@@ -617,6 +619,8 @@ def run_grouped(ck, name, case_type, cases, preds, suspects=(), group=25, shard_
         r2 = ck.run_cases(name, PRE, case_type, [cases[i] for i in ind], preds, shard=150)
         for p in preds:
             res[p] = sorted(ind[j] for j in r2[p])
+    ru1 = resource.getrusage(resource.RUSAGE_CHILDREN)
+    ck.extra.setdefault("coq_cpu_s", {})[name] = round(ru1.ru_utime + ru1.ru_stime - ru0.ru_utime - ru0.ru_stime, 1)
     ck.extra.setdefault("coq_wall_s", {})[name] = round(_time.time() - t0, 1)
     ck.extra.setdefault("individually_evaluated", {})[name] = len(ind)
     return res
@@ -821,8 +825,9 @@ def run(ck):
         if not is_legal(s):
             continue
         add_ser(s, False, n % 2 == 0)
-        # attribute position: every string of length <= 2, every 4th longer one (all of them in the thorough tier)
-        if thorough or len(s) <= 2 or len(s) > 3 or n % 4 == 0:
+        # attribute position: every string of length <= 2, every 4th of length 3, every 2nd longer one
+        # (all of them in the thorough tier)
+        if thorough or len(s) <= 2 or (len(s) > 3 and n % 2 == 0) or n % 4 == 0:
             add_ser(s, True, n % 2 == 1)
         n += 1
     ck.sample({"group": "ser", "value": meta[2000]["value"], "raw": meta[2000]["raw"], "expat": meta[2000]["seen"]})
@@ -923,9 +928,12 @@ def run(ck):
         for label, path, attr in REQ_POS:
             node = w.path(*path) if w is not None else None
             scopes[label] = scope_at(probe[1], node) if node is not None else []
-    rpool = fixed + rng.sample(short, 400) + mid[:500] + longs[:500] + [q + alpha_random(rng, 0, 3) for q in QNAMEY * 3]
+    # mostly medium-sized values (the long ones went through the standalone serialisers above)
+    medium = [random_string(rng, 40) for _ in range(3000 if thorough else 500)]
+    rpool = (fixed + rng.sample(short, 400) + mid[:500] + medium + longs[:2000 if thorough else 60]
+             + [q + alpha_random(rng, 0, 3) for q in QNAMEY * 3])
     rpool = [s for s in rpool if is_legal(s)]
-    ncalls = 6000 if thorough else 800
+    ncalls = 6000 if thorough else 700
     for n in range(ncalls):
         cfg = CONFIGS[n % 4]
         vs = tuple(rng.choice(rpool) for _ in range(5))
@@ -965,9 +973,9 @@ def run(ck):
     lap("req")
     # ------------------------------------------------------------------ rep (independent writer -> suds)
     cases, meta = [], []
-    ppool = fixed + rng.sample(short, 500) + mid[:400] + longs[:700]
+    ppool = fixed + rng.sample(short, 500) + mid[:400] + medium + longs[:2000 if thorough else 80]
     ppool = [s for s in ppool if is_legal(s)]
-    nrep = 6000 if thorough else 800
+    nrep = 6000 if thorough else 700
     for n in range(nrep):
         q = rng.choice(['"', "'"])
         vs = [rng.choice(ppool) for _ in range(5)]
@@ -1081,7 +1089,7 @@ def run(ck):
     ck.rule = ("strings: every string of length <= %d over the %d-symbol alphabet %r, %d random strings of length 4-5 "
                "over it, %d random strings over the XML Char production (ASCII, markup, entity fragments, "
                "whitespace incl. NBSP/NEL/LS, BMP, astral, boundary code points) up to length 200, plus fixed probes; "
-               "each as element text (and, for every string of length <= 2, every 4th of length 3 and all longer ones, as "
+               "each as element text (and, for every string of length <= 2, every 4th of length 3 and every 2nd longer one, as "
                "attribute value) of a standalone Element (pretty/plain alternating); Text objects carrying the escaped "
                "flag through both serialisers; attribute values through PrefixNormalizer on trees with random prefix "
                "declarations; a "
